@@ -174,21 +174,31 @@ impl Context {
         let path = self.file_path.clone();
         let (ast, module_info, mut parse_errs) = parser::parse_to_expr(src, path);
         // let ast = parser::add_global_context(ast, self.file_path.unwrap_or_default());
-        let mir = mirgen::compile_with_module_info(
+        if !parse_errs.is_empty() {
+            // The AST of a text with syntax errors contains error nodes. It is still type-checked
+            // to report as many diagnostics as possible, but it must not reach the macro stage
+            // or MIR generation, which assume a well-formed, well-typed program.
+            let expr = if ast.has_staging_constructs() {
+                ast.wrap_to_staged_expr()
+            } else {
+                ast
+            };
+            let (_expr, _infer_ctx, mut type_errs) = mirgen::typecheck_with_module_info(
+                expr,
+                self.get_ext_typeinfos().as_slice(),
+                self.file_path.clone(),
+                module_info,
+            );
+            parse_errs.append(&mut type_errs);
+            return Err(parse_errs);
+        }
+        mirgen::compile_with_module_info(
             ast,
             self.get_ext_typeinfos().as_slice(),
             &self.macros,
             self.file_path.clone(),
             module_info,
-        );
-        if parse_errs.is_empty() {
-            mir
-        } else {
-            let _ = mir.map_err(|mut e| {
-                parse_errs.append(&mut e);
-            });
-            Err(parse_errs)
-        }
+        )
     }
     pub fn emit_bytecode(&self, src: &str) -> Result<vm::Program, Vec<Box<dyn ReportableError>>> {
         let mir = self.emit_mir(src)?;
